@@ -69,6 +69,7 @@ type Contract struct {
 	Reads        []string
 	Guard        *Clause
 	ExitHints    []Clause
+	StepInvs     []Clause // must hold after every sync / sync/atomic operation of the body (one atomic step each)
 	IsLemma      bool
 	IsMonitor    bool
 	LemmaPTypes  []ast.Expr
@@ -320,7 +321,7 @@ var clauseKeywords = map[string]bool{
 	"func": true, "spec": true, "axiom": true, "instantiate": true, "nosafety": true,
 	"onlysafety": true, "unfold": true, "assert": true, "cases": true, "partial": true,
 	"lemma": true, "induction": true, "uses": true, "hint": true, "reads": true, "guard": true,
-	"guarded": true, "unshared": true, "fnparam": true, "monitor": true,
+	"guarded": true, "unshared": true, "fnparam": true, "monitor": true, "stepinv": true,
 }
 
 var fnparamRe = regexp.MustCompile(`^([A-Za-z_][A-Za-z0-9_]*)\(([^)]*)\)\s*:\s*(.*)$`)
@@ -620,6 +621,17 @@ func (e *Engine) parseContracts(body, pkgPath, file string, line0 int) error {
 				}
 				site := m[1] + " " + m[2] + "#" + m[3]
 				cur.Asserts[site] = append(cur.Asserts[site], Clause{Label: fmt.Sprintf("%s-%s#%s.%d", m[1], m[2], m[3], len(cur.Asserts[site])+1), Src: m[4], Expr: ex, Line: rc.line})
+			case "stepinv":
+				// stepinv <expr>: an invariant on shared state that every atomic step of the body
+				// must re-establish: proved after each call of a sync or sync/atomic operation
+				cl, err := mkClause(rc)
+				if err != nil {
+					return err
+				}
+				if cl.Label == "" {
+					cl.Label = fmt.Sprint(len(cur.StepInvs) + 1)
+				}
+				cur.StepInvs = append(cur.StepInvs, cl)
 			case "hint":
 				// hint <expr>: an assertion proved and then assumed — at the start of the loop body
 				// (inside `loop k`) or at the function's exit; used to put lemma instances in front of the solver
